@@ -21,3 +21,9 @@ pub assume_specification<'a, T> [std::option::Option::<&T>::copied] (o: std::opt
 pub broadcast proof fn lemma_seq_take_full<T>(s: Seq<T>)
     ensures #[trigger] s.take(s.len() as int) == s
 { assert(s.take(s.len() as int) =~= s); }
+
+// std: Option::or / Option::and (no closure involved; the documented behaviour)
+pub assume_specification<T> [std::option::Option::<T>::or] (o: std::option::Option<T>, optb: std::option::Option<T>) -> (r: std::option::Option<T>)
+    ensures r == (if o is Some { o } else { optb });
+pub assume_specification<T, U> [std::option::Option::<T>::and] (o: std::option::Option<T>, optb: std::option::Option<U>) -> (r: std::option::Option<U>)
+    ensures r == (if o is Some { optb } else { None::<U> });
